@@ -717,6 +717,19 @@ def _group_sync(ctx):
                    'the removal loop)',
                    construct='stale identity groups removed '
                              'unconditionally')
+    # ... on every path: a listing that came back empty removes every group
+    # of the model (the last group of a cell can be deleted too)
+    heads = [K.enclosing_for(graph, n)
+             for n, _c in sites['remove_identity_group']]
+    heads = [h for h in heads if h is not None]
+    skip = K.find_path(graph.entry, [graph.exit],
+                       cut_node=lambda n: n in heads, follow_exc=False)
+    ctx.ob('C05.6', func, heads[0] if heads else None,
+           bool(heads) and skip is None,
+           'the removal of stale identity groups is reached on every path '
+           '(also when the store lists no group at all)',
+           path=K.describe(skip) if skip else None,
+           construct='stale identity groups removal always reached')
     for node, call in sites['configure_identity_group']:
         head = K.enclosing_for(graph, node)
         if head is not None:
